@@ -231,6 +231,12 @@ impl Run {
     /// `confirm` re-executes a replay value plainly (no explorer) and returns Err(summary) if the
     /// violation shows again; it is called twice per new violation and both runs must agree.
     pub fn finish(mut self, confirm: &dyn Fn(&Value) -> Result<(), String>) -> ! {
+        if std::env::var("VCORE_CHILD").is_ok() {
+            // second-profile pass: report to the parent, write nothing
+            let vs: Vec<Value> = self.violations.iter().map(|v| json!({"signature": v.signature, "summary": v.summary, "replay": v.replay})).collect();
+            println!("CHILD-RESULT {}", json!({"violations": vs, "coverage": Value::Object(self.cov.clone()), "wall_s": self.elapsed()}));
+            std::process::exit(0);
+        }
         let known = self.load_known();
         let mut new_violations = vec![];
         let mut known_lines = vec![];
@@ -249,8 +255,8 @@ impl Run {
         // confirm every new violation by two plain re-executions
         let mut confirmed = vec![];
         for v in new_violations {
-            let r1 = confirm(&v.replay);
-            let r2 = confirm(&v.replay);
+            let r1 = confirm_any(&self.prop, &v.replay, confirm);
+            let r2 = confirm_any(&self.prop, &v.replay, confirm);
             match (&r1, &r2) {
                 (Err(a), Err(b)) if a == b => confirmed.push(v),
                 _ => {
@@ -328,10 +334,47 @@ impl Run {
         std::process::exit(1)
     }
 
+    /// Run the same engine built with the `dbg` cargo profile (debug assertions + overflow checks) as a
+    /// child and merge what it finds: an overflow / debug-assertion panic on an in-domain input is a
+    /// violation of the property in debug builds of the library.
+    pub fn run_dbg_child(&mut self) {
+        let dbg = match dbg_binary() {
+            Some(d) => d,
+            None => self.machinery_failure("the dbg-profile build of this engine does not exist (run ./check --setup)"),
+        };
+        let o = std::process::Command::new(&dbg).args([self.prop.as_str(), self.tier.name()]).env("VCORE_CHILD", "1").output();
+        let out = match o {
+            Ok(o) if o.status.success() => String::from_utf8_lossy(&o.stdout).into_owned(),
+            Ok(o) => self.machinery_failure(&format!("dbg-profile pass exited {:?}: {}", o.status, String::from_utf8_lossy(&o.stderr).chars().take(600).collect::<String>())),
+            Err(e) => self.machinery_failure(&format!("cannot run {}: {e}", dbg.display())),
+        };
+        let line = match out.lines().find_map(|l| l.strip_prefix("CHILD-RESULT ")) {
+            Some(l) => l.to_string(),
+            None => self.machinery_failure("dbg-profile pass printed no result"),
+        };
+        let v: Value = serde_json::from_str(&line).unwrap_or(Value::Null);
+        for x in v["violations"].as_array().cloned().unwrap_or_default() {
+            self.violation(Violation::new(
+                format!("dbg:{}", x["signature"].as_str().unwrap_or("")),
+                format!("[build with debug assertions and overflow checks] {}", x["summary"].as_str().unwrap_or("")),
+                json!({"dbg_child": true, "inner": x["replay"]}),
+            ));
+        }
+        let mut summary = Map::new();
+        for k in ["evaluations", "states", "transitions", "distinct_nontrivial"] {
+            if let Some(n) = v["coverage"].get(k) {
+                summary.insert(k.to_string(), n.clone());
+            }
+        }
+        summary.insert("wall_s".into(), v["wall_s"].clone());
+        summary.insert("violations".into(), json!(v["violations"].as_array().map_or(0, |a| a.len())));
+        self.cov.insert("second_pass_debug_assertions_overflow_checks".into(), Value::Object(summary));
+    }
+
     /// `--replay` mode: run the plain re-execution once and report.
     pub fn replay_main(args: &Args, confirm: &dyn Fn(&Value) -> Result<(), String>) -> ! {
         let v = args.load_replay().unwrap();
-        match confirm(&v) {
+        match confirm_any(&args.prop, &v, confirm) {
             Ok(()) => {
                 println!("REPLAY property={} outcome=holds (the recorded case no longer violates the property)", args.prop);
                 std::process::exit(0)
@@ -342,5 +385,39 @@ impl Run {
                 std::process::exit(1)
             }
         }
+    }
+}
+
+/// the same engine built with the `dbg` profile, if this process is the release build
+pub fn dbg_binary() -> Option<PathBuf> {
+    let exe = std::env::current_exe().ok()?;
+    let s = exe.to_string_lossy().to_string();
+    if !s.contains("/release/") {
+        return None;
+    }
+    let d = PathBuf::from(s.replace("/release/", "/dbg/"));
+    if d.exists() {
+        Some(d)
+    } else {
+        None
+    }
+}
+
+/// Re-execute a recorded case: in this process, or — for a case found by the dbg-profile pass — in the
+/// dbg-profile binary.
+fn confirm_any(prop: &str, replay: &Value, confirm: &dyn Fn(&Value) -> Result<(), String>) -> Result<(), String> {
+    if replay.get("dbg_child").and_then(|b| b.as_bool()) != Some(true) {
+        return confirm(replay);
+    }
+    let dbg = dbg_binary().ok_or_else(|| "no dbg-profile binary to replay in".to_string())?;
+    let tmp = std::env::temp_dir().join(format!("vcore-replay-{}-{}.json", prop, std::process::id()));
+    std::fs::write(&tmp, json!({"replay": replay["inner"]}).to_string()).map_err(|e| e.to_string())?;
+    let o = std::process::Command::new(&dbg).args([prop, "--replay", tmp.to_str().unwrap()]).output().map_err(|e| e.to_string())?;
+    let _ = std::fs::remove_file(&tmp);
+    let out = String::from_utf8_lossy(&o.stdout);
+    match o.status.code() {
+        Some(0) => Ok(()),
+        Some(1) => Err(out.lines().find(|l| l.starts_with("REPLAY")).unwrap_or("violation").to_string()),
+        c => Err(format!("dbg-profile replay ended with {:?}", c)),
     }
 }
